@@ -266,5 +266,24 @@ PROPS.update({
     },
 })
 
+PROPS.update({
+    "C17": {
+        "module": "obfus", "level": "exploration",
+        "technique": "property-based structural-equality + function/injection oracle (rapid) over generated documents and both modes, plus bulk enumeration/dense sampling of short-string length classes through one instance",
+        "level_text": "Generated traces/logs/metrics with attributes of every value type (nested lists/maps), both modes (encrypt_all; encrypt_attributes with listed and unlisted keys present), 1-4 documents per processor instance with a pinned key (crypto/rand.Reader is replaced by a seeded reader): input and output trees are walked in parallel - same counts at every level, same order, same value types, non-targeted values equal - and every targeted string s is replaced by f(s) with len(f(s)) == len(s), f a function and injective over everything the instance saw. Bulk cases push all 256 one-byte strings, all 65,536 two-byte strings and 20-60k-string samples of longer classes through one instance.",
+        "design_ref": "DESIGN.md §7 C17",
+        "rule": "rapid draws (signal, mode, key seed, 1-4 documents from a pool of empty/1-byte/odd/even/non-ASCII/repeated strings); NON-TRIVIAL = >=2 targeted strings and, in list mode, at least one non-targeted value present; bulk cases are all non-trivial; DISTINCT = FNV-64 of (signal, mode, documents, bucketed targeted/non-targeted/distinct counts) resp. (length, as-bytes, key class)",
+        "assumptions": [
+            "targeted strings: in encrypt_all every attribute key and every string/byte-array value (recursively); in list mode entries whose key is listed (same rule for maps nested in a targeted value); for traces additionally scope name/version, span name, status message and event names in both modes (the repository's own tests expect this)",
+            "string and byte-array renderings are treated as two substitution functions",
+            "the known finding list-mode-key-collision is excluded by construction (unlisted keys never have the byte length of a listed key; counted) and probed separately",
+        ],
+        "jobs": {
+            "quick": [{"test": "TestC17", "shards": 8, "checks": 40000, "timeout": 600}, {"test": "TestC17Bulk", "shards": 4, "checks": 16, "timeout": 600}],
+            "thorough": [{"test": "TestC17", "shards": 12, "checks": 1200000, "timeout": 3000}, {"test": "TestC17Bulk", "shards": 4, "checks": 1200, "timeout": 3000}],
+        },
+    },
+})
+
 # Properties not claimed (yet), with the reason recorded in MANIFEST.not_applicable.
 NOT_CLAIMED = {}
